@@ -105,9 +105,10 @@ def main():
     report["checks"] = caught
     out_dir = os.path.join(VERIF, "seeded", name)
     os.makedirs(out_dir, exist_ok=True)
-    shutil.copy(patch, os.path.join(out_dir, "patch.diff"))
-    if os.path.exists(demo):
-        shutil.copy(demo, os.path.join(out_dir, "demo.rs"))
+    if os.path.abspath(patch) != os.path.abspath(os.path.join(out_dir, "patch.diff")):
+        shutil.copy(patch, os.path.join(out_dir, "patch.diff"))
+        if os.path.exists(demo):
+            shutil.copy(demo, os.path.join(out_dir, "demo.rs"))
     json.dump(report, open(os.path.join(out_dir, "meta.json"), "w"), indent=1)
     print(json.dumps({k: report[k] for k in ("name", "confirmed", "tests_lost_with_patch", "caught_by")}, indent=1))
     if "demo" in report and isinstance(report["demo"], dict):
